@@ -1807,13 +1807,17 @@ class ListProxy(list):
 
     def remove(self, object):
         with self._trigger():
-            super().remove(object)
-            self._parameter._objects.remove(object)
+            # (list.remove goes by equality: the label dropped is that of
+            # the member actually removed, which need not be identical with
+            # the argument)
+            index = self._parameter._objects.index(object)
+            removed = self._parameter._objects.pop(index)
+            super().pop(index)
             if self._parameter.names:
                 copy = self._parameter.names.copy()
                 self._parameter.names.clear()
                 self._parameter.names.update({
-                    k: v for k, v in copy.items() if v is not object
+                    k: v for k, v in copy.items() if v is not removed
                 })
 
     def update(self, objects, **items):
